@@ -18,7 +18,6 @@
 package c03
 
 import (
-	"sync"
 	"bytes"
 	"encoding/json"
 	"errors"
@@ -28,6 +27,7 @@ import (
 	"path/filepath"
 	"sort"
 	"strings"
+	"sync"
 	"time"
 
 	sjson "go.starlark.net/lib/json"
